@@ -1,6 +1,7 @@
 import TantivyModel.Proofs.SSTable.Refine
 import TantivyModel.Proofs.SSTable.Writer
 import TantivyModel.Proofs.SSTable.Stream
+import TantivyModel.Proofs.SSTable.OrdToTerm
 /-!
 # C15 — Term dictionaries behave as ordered maps from byte strings
 
@@ -121,6 +122,21 @@ theorem C15_ops_refine_term_ord_or_next {V} (blockLen : Nat) (m : Assoc V) (hs :
       (build blockLen m).termOrdOrNext k = .next U64_MAX ∧ termOrdOrNext m k = .next m.length) :=
   ⟨fun b h => refine_orn_some blockLen m hs k b h, refine_orn_none blockLen m hs k⟩
 
+/-- `ord_to_term` and `term_info_from_ord` (block found by ordinal, then `ord - first_ordinal + 1`
+advances) equal the specification for every map, block length and ordinal, incl. ordinals ≥ n -/
+theorem C15_ops_refine_ord_to_term {V} (blockLen : Nat) (m : Assoc V) (ord : Nat) :
+    (build blockLen m).ordToTerm ord = ordToTerm m ord ∧
+    (build blockLen m).valueAtOrd ord = valueAtOrd m ord :=
+  refine_ordToTerm blockLen m ord
+
+/-- `sorted_ords_to_term_cb` (one forward pass, blocks re-opened only when the next ordinal is at
+or past the end bound, repeated ordinals re-emitted) calls back with exactly the keys of the
+ordinals up to the first missing one and returns whether all exist — for every sorted list -/
+theorem C15_ops_refine_sorted_ords {V} (blockLen : Nat) (m : Assoc V) (ords : List Nat)
+    (hsorted : ords.Pairwise (· ≤ ·)) :
+    (build blockLen m).sortedOrdsToTerm ords = sortedOrdsSpec m ords :=
+  refine_sortedOrds blockLen m ords hsorted
+
 /-- the scan of one sorted block finds the first key ≥ k, exact iff equal -/
 theorem C15_block_scan (ks : List Key) (k : Key) (hs : StrictInc ks) :
     scanOrNext ks k 0 = specHit ks k ∧ (specHit ks k).exact? = ks.findIdx? (fun a => a == k) := by
@@ -175,7 +191,6 @@ theorem C15_inverted_range_counterexample :
     range [(([1] : Key), 10), ([2], 20), ([3], 30)] (.incl [3]) (.excl [1]) = [] := by decide
 
 /- Still to prove (full statements; the harness compares these operations on every run):
-   C15_ops_refine_ord_to_term : SortedMap m → (build L m).ordToTerm ord = ordToTerm m ord
    C15_ops_refine_range       : SortedMap m → (build L m).stream lo hi limit = some out →
                                   IsLimitedRange m lo hi limit (out.map (fun e => (e.2.1, e.2.2)))
                                   ∧ ordinals of `out` are the spec ordinals
@@ -240,6 +255,8 @@ example : SortedMap [(([1] : Key), 10), ([1, 2], 20), ([1, 2, 3], 30), ([2], 40)
   (strictIncB_iff _).mp (by decide)
 example : (build 2 [([1], 10), ([1, 2], 20), ([1, 2, 3], 30), ([2], 40), ([3, 0], 50)]).termOrdOrNext [1, 9] = .next 3
     ∧ (build 2 [([1], 10), ([1, 2], 20), ([1, 2, 3], 30), ([2], 40), ([3, 0], 50)]).termOrdOrNext [9] = .next U64_MAX := by decide
+example : (build 2 [(([1] : Key), 10), ([1, 2], 20), ([1, 2, 3], 30), ([2], 40), ([3, 0], 50)]).sortedOrdsToTerm [0, 0, 2, 3, 4, 7]
+    = ([[1], [1], [1, 2, 3], [2], [3, 0]], false) := by decide
 example : NoEmptyDup none [[], [1], [1, 2]] ∧ ¬ NoEmptyDup none [[], []] := by simp [NoEmptyDup]
 example : writerAccepts 4 [[1], [1, 2], [1, 2, 3], [2]] = true ∧ writerAccepts 4 [[1], [1, 2], [1, 2], [2]] = false := by decide
 
